@@ -418,6 +418,30 @@ class SimReactor(object):
             else:
                 self._io_one(obj)
 
+    def step_one(self, chooser=None):
+        """Sub-instant granularity: run ONE ready item (the clock moves to the next timer when nothing is due now) and leave
+        whatever else is due at this instant pending.  Reactor iterations are separate - a zero-delay call runs in the next
+        one - and a REST worker thread can get in between; the next settle() finishes the instant."""
+        self.flush_threads()
+        r = self.ready()
+        if not r:
+            nt = self.next_time()
+            if nt is None:
+                return False
+            self._now = max(self._now, nt)
+            r = self.ready()
+        if len(r) > 1:
+            self.choices.append(len(r))
+            i = chooser(r) if chooser else 0
+        else:
+            i = 0
+        kind, obj = r[i]
+        if kind == 'timer':
+            self.fire(obj)
+        else:
+            self._io_one(obj)
+        return True
+
     def advance(self, dt, chooser=None):
         target = self._now + dt
         self.settle(chooser)
